@@ -400,5 +400,5 @@ def replay_bounded(inp):
 
 ASSUMED = ["the expected locations are the System V AMD64 psABI classification for scalar INTEGER / SSE arguments (3.2.3): six integer registers, eight SSE registers, "
            "8-byte stack slots in argument order; the first stack argument lives 16 bytes above the frame pointer (return address + saved rbp)"]
-NOT_COVERED = ["prologue / epilogue code, stack alignment, the actual moves of gen_function_enter / gen_call, aggregates passed by value, varargs, "
-               "interoperation with code from another compiler (needs execution; outside contract reach)"]
+NOT_COVERED = ["preservation of callee-saved registers and of the stack pointer across a real call (needs an assembly shim), aggregates passed by value, varargs, "
+               "interoperation with gcc-compiled objects through ELF / PLT32 relocations; prologue / epilogue code and the argument moves only as far as the executed corpus reaches"]
